@@ -171,6 +171,15 @@ def r13_4(ctx, rep):
     affine_rebuild(ctx, rep, "R13.4")
 
 
+# CasADi operations for which a vanishing symbolic Hessian does NOT imply affinity: piecewise-linear, discontinuous, logical,
+# or opaque (a call node hides a body that may be any of those).  Reviewed against casadi's operation list.
+NON_SMOOTH_OPS = {
+    "OP_CALL", "OP_FABS", "OP_FMIN", "OP_FMAX", "OP_SIGN", "OP_COPYSIGN", "OP_IF_ELSE_ZERO", "OP_FLOOR", "OP_CEIL", "OP_FMOD", "OP_REMAINDER",
+    "OP_LT", "OP_LE", "OP_EQ", "OP_NE", "OP_NOT", "OP_AND", "OP_OR", "OP_FIND", "OP_LOW", "OP_NORM1", "OP_NORMINF", "OP_MMIN", "OP_MMAX",
+    "OP_GETNONZEROS_PARAM", "OP_BSPLINE", "OP_EINSTEIN", "OP_SOLVE", "OP_MAP",
+}
+
+
 def _metadata_fn(ctx, R):
     """Model.variable_metadata_function with its role-carrying locals renamed to canonical names: `out` (the list handed to
     the final ca.Function), `in_var` (its input), `expr` (what the category loop appends to out), `is_affine` (the flag
@@ -241,6 +250,19 @@ def affine_rebuild(ctx, rep, R):
                         ok_h = True
             clears = clears and ok_h
     rep.ob(R, site, "non-zero Hessian clears is_affine", clears, "is_affine must become False when the Hessian is not zero")
+    # the whitelist in front of the Hessian test: "zero symbolic Hessian => affine" only holds for smooth operations
+    wl = None
+    for st in ast.walk(fn):
+        if isinstance(st, (ast.Set, ast.List, ast.Tuple)) and len(st.elts) >= 4 and all(isinstance(e, ast.Attribute) and e.attr.startswith("OP_") for e in st.elts):
+            wl = st
+    if wl is None:
+        raise MechanismMissing(R, "whitelist of allowed operations (a set of ca.OP_* codes) not found in variable_metadata_function")
+    ops = sorted({e.attr for e in wl.elts})
+    bad = [o for o in ops if o in NON_SMOOTH_OPS]
+    rep.ob(R, site, "whitelisted operations are smooth", not bad,
+           "the operation whitelist admits %s: for a piecewise-linear or opaque operation the symbolic Hessian is zero although the expression is "
+           "not affine, so the attribute is rebuilt as A*p + b linearised at p = 0 and reports wrong values (e.g. a user function "
+           "max(u, 0) kept as a call with inline_functions=False)" % bad)
     # rebuild only under is_affine
     ok = any(isinstance(st, ast.If) and "is_affine" in norm(st.test) and "len(self.parameters) > 0" in norm(st.test) and any("Af" in norm(x) for x in st.body) for st in ast.walk(fn))
     rep.ob(R, site, "rebuild guarded by is_affine", ok, "the A*p + b rebuild must be guarded by is_affine")
